@@ -524,12 +524,24 @@ func c10MethodsBody(rc *RunCtx) {
 	rc.Cells = append(rc.Cells, "method:"+d.Label)
 	op := &c10Op{Method: c.method, Key: 2, Val: 7777}
 	d.Ops = append(d.Ops, op)
+	// operations that by their very name only look at the structure or reorder it must leave
+	// its content (membership and values) as it was
+	dom := []int{2, 11, 12, 13, 14}
+	before := ""
+	if c10ReadOnlyName.MatchString(c.method) && c.state >= 1 {
+		before = members(obj, dom)
+	}
 	tk := simrt.GoNamed("caller", func() {
 		op.Call = simrt.Stamp()
 		op.Out = invoke(obj, c.method, 2, 7777)
 		op.Return = simrt.Stamp()
 	})
 	simrt.Settle(int64(30 * time.Second))
+	if before != "" && tk.Done() && !strings.HasPrefix(op.Out, "panic:") {
+		if after := members(obj, dom); after != before {
+			rc.Violate("C10", "corruption", "content-changed-by:"+d.Label, fmt.Sprintf("%s changed the content although it only reads or reorders: before %s | after %s", d.Label, before, after))
+		}
+	}
 	if !tk.Done() {
 		_, what := tk.Blocked()
 		d.Waiting = what
@@ -655,6 +667,11 @@ func c10CrossBody(rc *RunCtx) {
 }
 
 // ---- facet A3: whole-structure operations concurrent with writers ----
+
+// c10ReadOnlyName: methods that, going by their name, read or reorder (never Put/Add/Remove/
+// Clear/Set/ToObject/PutAll/Get on the LRU types, which touches recency but not content either
+// - left out to stay on the safe side)
+var c10ReadOnlyName = regexp.MustCompile(`^(Sort.*|KeyArray|Keys|Values|Entries|ToString.*|ToFormatString|ToBytes|ToArray|ContainsKey|ContainsValue|Contains|HasKey|GetFirst.*|GetLast.*|IsEmpty|IsFull|Size.*)$`)
 
 var c10ConfigMethods = map[string]bool{"SetMax": true, "SetCapacity": true, "SetNullValue": true}
 
